@@ -77,6 +77,10 @@ def rng(e, depth=0):
     if k in ("arg", "phi"):
         return INT_RANGES.get(e[-1] if k == "arg" else e[2])
     if k == "field":
+        if isinstance(e[1], tuple) and e[1][0] == "variant":
+            r = rng(e[1], depth + 1)
+            if r:
+                return r
         return INT_RANGES.get(e[4]) if len(e) > 4 else None
     if k in ("ref", "deref"):
         return rng(e[1], depth + 1)
@@ -108,6 +112,23 @@ def rng(e, depth=0):
             return (a[0] * b[0], a[1] * b[1])
         if op == "Shr" and b[0] == b[1] and a[0] >= 0:
             return (a[0] >> b[0], a[1] >> b[0])
+        return None
+    if k == "variant":
+        # an item of a literal array iterated directly: next(into_iter([c0, c1, ..])) as Some
+        inner = e[1]
+        while isinstance(inner, tuple) and inner[0] in ("ref", "deref"):
+            inner = inner[1]
+        if inner[0] == "call" and inner[1].endswith("as Iterator>::next") and e[2] == "Some":
+            for x in inner[3]:
+                y = x
+                while isinstance(y, tuple) and y[0] in ("ref", "deref"):
+                    y = y[1]
+                if y[0] == "call" and y[1].endswith("IntoIterator>::into_iter") and y[3]:
+                    arr = y[3][0]
+                    if arr[0] == "agg" and arr[1] == "array":
+                        rs = [rng(v, depth + 1) for v in arr[4]]
+                        if rs and all(rs):
+                            return (min(r[0] for r in rs), max(r[1] for r in rs))
         return None
     if k == "call":
         if e[1] in PURE_LEN:
